@@ -184,9 +184,37 @@ def rule_R14_3(ctx):
                 continue
             if f.dominates(some_t, bb):
                 cpp = f.canon(info["place"])
-                names = [p for p in cpp if p != "*" and p[0] == "f"]
                 ok = True
                 r.inst("%s: `this` bound under Some(source) of %s" % (f.path, cpp))
+                # ... and on every path from that edge: no further condition
+                # may skip the binding (the other edge's first block is where
+                # the two paths can rejoin)
+                none_t = info["otherwise"]
+                for nme, tgt in info["cases"]:
+                    if nme == "None":
+                        none_t = tgt
+                seen_ = set()
+                st_ = [some_t]
+                skips = False
+                # blocks reachable from the None edge = "after the decision"
+                after = f.reach_from(none_t)
+                while st_:
+                    x = st_.pop()
+                    if x in seen_ or x == bb:
+                        continue
+                    seen_.add(x)
+                    if x in after and x != some_t:
+                        skips = True
+                        break
+                    st_.extend(f.succs(x))
+                if skips:
+                    r.fail("%s | this binding can be skipped although a source exists" % f.path,
+                           "a path from `source is Some` rejoins the common "
+                           "code without adding the `this` binding: an "
+                           "extra condition decides whether `this` is bound",
+                           where=mir.span_loc(sp))
+                else:
+                    r.ok()
         if ok:
             r.ok()
         else:
